@@ -23,6 +23,18 @@ theorem slice_ok (site : String) (b : Bytes) (lo hi : Nat) (h1 : lo ≤ hi) (h2 
 /-- every arm of the REGENERATED `AddressType::from_slice` table slices inside the length it has checked -/
 theorem table_guards : ∀ e ∈ Gen.addrType, e.2.2.2.2.1 ≤ e.2.2.2.2.2 ∧ e.2.2.2.2.2 ≤ e.2.2.2.1 := by decide
 
+/-- … and every Integrated arm of the regenerated table hands exactly 8 bytes to `PaymentId::from_slice` -/
+theorem table_guards_pid : ∀ e ∈ Gen.addrType, e.2.2.1 = Kind.Integrated → e.2.2.2.2.2 - e.2.2.2.2.1 = 8 := by decide
+
+theorem addrArm_guard_pid (net : Net) (b minLen lo hi : Nat) (kk : Kind) (h : addrArm net b = some (kk, minLen, lo, hi))
+    (hk : kk = .Integrated) : hi - lo = 8 := by
+  unfold addrArm at h
+  rw [Option.map_eq_some_iff] at h
+  obtain ⟨e, hf, he⟩ := h
+  have := table_guards_pid e (List.mem_of_find?_eq_some hf)
+  rw [he] at this
+  exact this hk
+
 theorem addrArm_guard (net : Net) (b minLen lo hi : Nat) (kk : Kind) (h : addrArm net b = some (kk, minLen, lo, hi)) :
     lo ≤ hi ∧ hi ≤ minLen := by
   unfold addrArm at h
@@ -45,7 +57,12 @@ theorem addrTypeOfP_eq (net : Net) (bytes : Bytes) : addrTypeOfP net bytes = ofO
       simp only []
       by_cases hl : (b :: r).length < minLen
       · rw [if_pos hl, if_pos hl]; rfl
-      · rw [if_neg hl, if_neg hl, slice_ok _ _ _ _ hg.1 (by omega)]
+      · rw [if_neg hl, if_neg hl, slice_ok _ _ _ _ hg.1 (by omega), bind_ok]
+        have hlen : k = .Integrated → ((b :: r).drop lo |>.take (hi - lo)).length = 8 := by
+          intro hk
+          have h8 := addrArm_guard_pid net b.toNat minLen lo hi k ha hk
+          rw [List.length_take, List.length_drop]; omega
+        rw [if_neg (by intro hc; exact hc.2 (hlen hc.1))]
         rfl
 
 theorem fromBytesP_eq (H : Bytes → Bytes) (vk : Bytes → Bool) (hH : ∀ x, 4 ≤ (H x).length) (bytes : Bytes) :
